@@ -194,6 +194,23 @@ def r20_names(ctx):
                {'name': 'C', 'is_input': False, 'is_output': True}, {'name': 'D', 'is_input': True, 'is_output': True},
                {'name': 'B2', 'is_input': False, 'is_output': False}]
     want = {'get_input_names': ['A', 'B', 'D'], 'get_output_names': ['B', 'C', 'D'], 'get_ioport_names': ['B', 'D']}
+    # a module that lists the two directions of a device as separate entries under one name (PortMidi, pygame): a name is an
+    # I/O name when it is among the inputs and among the outputs, in input order
+    devices2 = [{'name': 'X', 'is_input': True, 'is_output': False}, {'name': 'X', 'is_input': False, 'is_output': True},
+                {'name': 'Y', 'is_input': True, 'is_output': False}, {'name': 'Z', 'is_input': False, 'is_output': True},
+                {'name': 'W', 'is_input': False, 'is_output': True}, {'name': 'W', 'is_input': True, 'is_output': False}]
+    want2 = {'get_input_names': ['X', 'Y', 'W'], 'get_output_names': ['X', 'Z', 'W'], 'get_ioport_names': ['X', 'W']}
+    cls0 = cls
+    for meth, names in want2.items():
+        ai = make_interp(ctx, {}, True, True, devices2)
+        o, fn = ctx.p.lookup_method(cls0, meth)
+        outs = ai.explore(lambda: pm.call(ai, ctx, ai.apply(ClassRef(cls0), [], {'name': 'mod'}, None), meth, [], {}))
+        val = outs[0].value if len(outs) == 1 and outs[0].kind == 'return' else None
+        if isinstance(val, AList):
+            val = list(val.items)
+        ctx.require(val == names, 'R20.5', f'{meth}() with one entry per direction', ctx.where(fn),
+                    f'devices listed once per direction {[(d["name"], "in" if d["is_input"] else "out") for d in devices2]}: gives {val if val is not None else outs}, '
+                    f'expected {names}', construct=f'{fn.qname}::listing')
     for has_dev in (True, False):
         for bname, api_call in (('mod/APIN', None), ('mod', 'APIC'), ('mod', None)):
             for meth, names in want.items():
